@@ -59,13 +59,14 @@ def _compare(t, model, keys, keytype, out, step):
         bad("raises", "len raised %r" % (e,))
     # traversals
     try:
-        items = [(tuple(k), v) for k, v in t.items()]
+        # materialise first, convert afterwards: a caller doing list(t.items()) must see stable keys
+        items = [(tuple(k), v) for k, v in list(t.items())]
         if sorted(items, key=repr) != sorted(model.items(), key=repr):
             bad("items", "items()=%r model=%r" % (sorted(items, key=repr), sorted(model.items(), key=repr)))
-        it = [(tuple(k), v) for k, v in iter(t)]
+        it = [(tuple(k), v) for k, v in list(iter(t))]
         if sorted(it, key=repr) != sorted(model.items(), key=repr):
             bad("iter", "iter()=%r model=%r" % (sorted(it, key=repr), sorted(model.items(), key=repr)))
-        pre = sorted(tuple(k) for k in t.prefixes())
+        pre = sorted(tuple(k) for k in list(t.prefixes()))
         if pre != sorted(model):
             bad("prefixes", "prefixes()=%r model=%r" % (pre, sorted(model)))
         vals = sorted(t.values(), key=repr)
